@@ -20,7 +20,7 @@ EXPLANATION = (
     'expansion (bit-vector formula) for both tables. Header: real read_header run on a structured header whose numeric '
     'field values (header size, counts) are symbolic.')
 BOUNDS = {
-    'quick': 'channels 1..8, sample_n_bytes in {1,2}, codings pcm/ulaw/alaw, requested dtype None/1-byte/int16/int32, data section <= 3*16384+64 bytes (>= 3 loop iterations), any sample_count / any truncation inside that',
+    'quick': 'channels 1..8, sample_n_bytes in {1,2}, codings pcm/ulaw/alaw, requested dtype None/uint8/int8/int16/int32, headers of 1024 bytes (any declared size) and of 2048 bytes whose fields cross byte 1024 at every position of the mandatory fields (positions splitting a number excluded), data section <= 3*16384+64 bytes (>= 3 loop iterations), any sample_count / any truncation inside that',
     'thorough': 'same with data section <= 6*16384+64 bytes and channels 1..12',
 }
 OUTSIDE = ['narrowing casts of 16-bit PCM into a requested 1-byte dtype (C cast semantics)', 'sample_n_bytes == 4',
@@ -172,7 +172,9 @@ def configs(tier, seed):
     maxbytes = (3 if tier == 'quick' else 6) * 16384 + 64
     for ch in chans:
         for (coding, size) in (('pcm', 2), ('ulaw', 1), ('alaw', 1), ('pcm', 1)):
-            for dt in (None, 'u1', 'i2', 'i4'):
+            for dt in (None, 'u1', 'i1', 'i2', 'i4'):
+                if dt == 'i1' and coding == 'pcm':
+                    continue
                 if coding == 'pcm' and dt == 'u1':
                     continue  # narrowing cast: outside the claim
                 if coding == 'pcm' and size == 1 and dt is not None:
@@ -181,10 +183,14 @@ def configs(tier, seed):
                                  size=size, dt=dt, maxbytes=maxbytes))
     cfgs.append(dict(kind='tables', name='g711 tables'))
     cfgs.append(dict(kind='header', name='header'))
+    offs = list(range(-160, 12))
+    n = 4 if tier == 'quick' else 8
+    for i in range(n):
+        cfgs.append(dict(kind='header_long', name='long header %d/%d' % (i + 1, n), offsets=offs[i::n], hs=2048 if tier == 'quick' else 3072))
     return cfgs
 
 
-DTS = {'u1': NP.uint8, 'i2': NP.int16, 'i4': NP.int32, None: None}
+DTS = {'u1': NP.uint8, 'i1': NP.int8, 'i2': NP.int16, 'i4': NP.int32, None: None}
 
 
 def run_copy(cfg):
@@ -417,8 +423,123 @@ def run_header(cfg):
     return dict(obligations=ob, discharged=dis, violations=viol, samples=[{'config': 'header', 'fields': [f.decode() for f in base_fields]}], twin=dis > 0)
 
 
+LONG_FIELDS = [b'channel_count -i @CC@', b'sample_count -i @SC@', b'sample_rate -i @SR@', b'sample_n_bytes -i 2',
+               b'sample_byte_format -s2 10', b'sample_coding -s3 pcm']
+
+
+def long_header(off, hs, nums=None):
+    """header of hs (> 1024) bytes whose fields run past the first 1024-byte block: comment fields first, then the
+    mandatory fields and end_head, laid out so that byte 1024 of the file is `off` bytes after the end of the
+    end_head line (negative: inside the mandatory fields).  nums: concrete numbers instead of placeholders."""
+    fields = LONG_FIELDS
+    if nums is not None:
+        fields = [f.replace(b'@CC@', b'%d' % nums['cc']).replace(b'@SC@', b'%d' % nums['sc']).replace(b'@SR@', b'%d' % nums['sr']) for f in fields]
+    tail = b'\n'.join(fields) + b'\nend_head\n'
+    head = b'NIST_1A\n   %d\n' % hs if nums is not None else b'NIST_1A\n   @HS@\n'
+    room = 1024 - off - len(tail) - len(head)      # bytes of comment fields in front
+    assert room >= 40
+    com = b''
+    k = 0
+    while len(com) < room:
+        left = room - len(com)
+        if left >= 120:
+            line = (b'comment%02d -s40 ' % k) + b'x' * 40 + b'\n'
+        else:
+            line = None
+            for K in range(left, 0, -1):
+                for sp in (b'', b' '):
+                    cand = (b'comment%02d -s%d ' % (k, K)) + b'x' * K + sp + b'\n'
+                    if len(cand) == left and line is None:
+                        line = cand
+            assert line is not None
+        com += line
+        k += 1
+    assert len(com) == room, (len(com), room)
+    raw = head + com + tail
+    assert len(raw) <= hs
+    return raw + b' ' * (hs - len(raw))
+
+
+class HFile2:
+    """file with concrete header bytes; read(n) returns the next n bytes"""
+
+    def __init__(s, blob):
+        s.blob = blob
+        s.pos = 0
+
+    def read(s, n):
+        if not isinstance(n, int):
+            raise Inconclusive('symbolic read size on a concrete header')
+        r = s.blob[s.pos:s.pos + max(n, 0)]
+        s.pos += len(r)
+        return r
+
+
+def run_header_long(cfg):
+    """real read_header on headers longer than 1024 bytes whose fields cross the first block at every byte position of
+    the mandatory fields; channel / sample counts and rate symbolic."""
+    viol, samples = [], []
+    ob = dis = 0
+    place = {}
+    hs = cfg['hs']
+
+    def hint(v, *a):
+        if isinstance(v, (bytes, str)):
+            key = (v.decode() if isinstance(v, bytes) else v).strip()
+            if key in place:
+                return place[key]
+        return sint(v, *a)
+    ns = loader.load_unit('_sphere', dict(int=hint), name='sphere_header_long')
+    err = IOError('bad header')
+    for off in cfg['offsets']:
+        blob = long_header(off, hs)
+        if any(ph in (blob[1024 - 3:1024 + 3]) and ph not in blob[:1024] and ph not in blob[1024:] for ph in (b'@CC@', b'@SC@', b'@SR@')):
+            continue       # the block boundary would split a placeholder number: layout skipped (stated in BOUNDS)
+
+        def body():
+            c = Ctx.cur
+            cc, scn, sr = z3.Int('cc'), z3.Int('sc'), z3.Int('sr')
+            place.clear()
+            place.update({'@HS@': hs, '@CC@': SInt(cc), '@SC@': SInt(scn), '@SR@': SInt(sr)})
+            c.assume(cc >= 1, cc <= 64, scn >= 1, scn <= 1 << 30, sr >= 1, sr <= 200000)
+            f = HFile2(blob)
+            try:
+                res = ns['read_header'](f, err)
+            except Exception as e:
+                symex.guard(e)
+                return ('exception', '%s: %s' % (type(e).__name__, e))
+            return ('ok', f.pos, res)
+
+        for ctx, res in explore(body):
+            if res is None:
+                continue
+            ob += 1
+            cc, scn, sr = z3.Int('cc'), z3.Int('sc'), z3.Int('sr')
+            if res[0] == 'exception':
+                m = ctx.model()
+                viol.append(dict(kind='header_long', what='well-formed %d-byte header rejected: %s' % (hs, res[1][:80]), off=off, hs=hs, cc=m.eval(cc, True).as_long(),
+                                 sc=m.eval(scn, True).as_long(), sr=m.eval(sr, True).as_long(), **{'class': 'header_long/exception'}))
+                continue
+            samptype, sampsize, sampcount, samprate, chancount, inporder = res[2]
+            bad = z3.Or(_z(sampcount) != scn, _z(chancount) != cc, _z(samprate) != sr, z3.BoolVal(samptype != 'pcm'), z3.BoolVal(sampsize != 2),
+                        z3.BoolVal(inporder != '10'), z3.BoolVal(res[1] != hs))
+            s = ctx.solver
+            s.push()
+            s.add(bad)
+            r = check_sat(s)
+            if r == 'sat':
+                m = s.model()
+                viol.append(dict(kind='header_long', what='fields of a %d-byte header mis-parsed' % hs, off=off, hs=hs, cc=m.eval(cc, True).as_long(),
+                                 sc=m.eval(scn, True).as_long(), sr=m.eval(sr, True).as_long(), **{'class': 'header_long/value'}))
+            else:
+                dis += 1
+            s.pop()
+    samples.append({'config': cfg['name'], 'offsets of byte 1024 relative to the end of end_head': [cfg['offsets'][0], cfg['offsets'][-1]], 'header_bytes': hs})
+    return dict(obligations=ob, discharged=dis, violations=viol, samples=samples, twin=dis > 0)
+
+
 def run_config(cfg):
-    return {'copy': run_copy, 'tables': run_tables, 'header': run_header}[cfg['kind']](cfg)
+    return {'copy': run_copy, 'tables': run_tables, 'header': run_header, 'header_long': run_header_long}[cfg['kind']](cfg)
 
 
 # ------------------------------------------------------------------ replay
@@ -440,6 +561,17 @@ def replay(w):
     import pydrobert.speech._sphere as sph
     if w['kind'] == 'tables':
         return {'reproduced': True, 'detail': w['what']}
+    if w['kind'] == 'header_long':
+        nums = dict(cc=w['cc'], sc=w['sc'], sr=w['sr'])
+        blob = long_header(w['off'], w['hs'], nums) + b'\0' * 64
+        f = io.BytesIO(blob)
+        try:
+            out = sph.read_header(f, IOError('x'))
+        except Exception as e:
+            return {'reproduced': True, 'detail': 'well-formed %d-byte header (end_head ends %d bytes %s byte 1024) rejected with %s: %s' % (
+                w['hs'], abs(w['off']), 'before' if w['off'] >= 0 else 'after', type(e).__name__, e)}
+        ok = out == ('pcm', 2, w['sc'], w['sr'], w['cc'], '10') and f.tell() == w['hs']
+        return {'reproduced': not ok, 'detail': 'read_header -> %s at position %d for a %d-byte header with counts %s' % (out, f.tell(), w['hs'], nums)}
     if w['kind'] == 'header':
         if 'hs' not in w:
             return {'reproduced': True, 'detail': w['what']}
@@ -463,7 +595,7 @@ def replay(w):
     rng = np.random.RandomState(3)
     raw = rng.randint(0, 256, size=present).astype(np.uint8).tobytes()
     blob = make_sphere(raw, sc, ch, size, coding)
-    dtype = {None: None, 'u1': np.uint8, 'i2': np.int16, 'i4': np.int32}[dt]
+    dtype = {None: None, 'u1': np.uint8, 'i1': np.int8, 'i2': np.int16, 'i4': np.int32}[dt]
     with warnings.catch_warnings(record=True) as wl:
         warnings.simplefilter('always')
         try:
@@ -474,12 +606,14 @@ def replay(w):
     src = np.frombuffer(raw[:nfr * ch * size], dtype=('>i2' if size == 2 else np.uint8))
     if coding in ('ulaw', 'alaw') and (dtype is None or np.dtype(dtype).itemsize > 1):
         src = (sph.ULAW2PCM if coding == 'ulaw' else sph.ALAW2PCM)[src]
+    elif dtype is not None and np.dtype(dtype).itemsize == 1:
+        src = src.astype(dtype)      # the raw codes, bit for bit, in the requested 1-byte dtype
     want = src.reshape((nfr, ch)) if ch > 1 else src
     if got.shape != want.shape:
         return {'reproduced': True, 'detail': 'channels=%d %s sample_count=%d present=%d bytes: shape %s, expected %s' % (ch, coding, sc, present, got.shape, want.shape)}
     if not np.array_equal(got.astype(np.int64), want.astype(np.int64)):
         bad = np.argwhere(got.astype(np.int64) != want.astype(np.int64))[0]
-        return {'reproduced': True, 'detail': 'channels=%d %s sample_count=%d: first wrong sample at %s' % (ch, coding, sc, tuple(int(b) for b in bad))}
+        return {'reproduced': True, 'detail': 'channels=%d %s dtype=%s sample_count=%d: first wrong sample at %s' % (ch, coding, dt, sc, tuple(int(b) for b in bad))}
     if (nfr < sc) != bool(wl):
         return {'reproduced': True, 'detail': 'short=%s but %d warnings' % (nfr < sc, len(wl))}
     return {'reproduced': False, 'detail': 'real reader matches'}
